@@ -41,6 +41,10 @@ CHECKS = {
             "technique": "stateful property-based testing (rapid) on a real filesystem; differential accelerated-vs-cold scan, chained",
             "note": "Trusted: the cold scan as reference (itself judged by C12); edits report every created/deleted/modified path incl. descendants, and content edits always change size, mtime or inode, as the statement's precondition requires.",
             "text": "Random trees with Mutagen- or Docker-syntax ignores go through 3-10 steps of edit batches; after each step the accelerated scan (baseline + recheck paths + digest and ignore caches from the previous accelerated scan) must equal a cold scan in content, flags, counters and digest cache, and never fail."},
+    "C09": {"level": "fault_enumeration", "steps": [step("./c09_transition/", shards={"thorough": 8}, timeout={"quick": 900, "thorough": 5400})],
+            "technique": "fault enumeration over build-tag hooks at the syscall helpers of pkg/filesystem, driven by rapid-generated trees and plans; oracle = independent cold scan vs reported results",
+            "note": "Faults are fail-before-effect at the hooked helpers (openat, mkdirat, renameat, renameat2, unlinkat, fstat, fchmod, fstatat, fchmodat, fchownat, symlinkat, readlinkat, chown/chmod by path); reads/writes of file data and getdents are not hooked; the post-transition cold scan is trusted (C12).",
+            "text": "Each generated plan is executed fault-free, then once per hooked filesystem call with that call failing, once per call with cancellation at that call, and again with a forced cross-device rename; a real tmpfs staging directory and missing staged files are included. After every run a cold scan must equal the pre-scan with the reported results substituted, and no temporary file may be left behind."},
     "C06": {"level": "exploration", "steps": RECONCILE(), "technique": PBT, "note": TREE_NOTE,
             "text": "Same enumeration: no two actions on equal or nested paths, every action sits at a first disagreement found by an independent walker, conflicts have changes on both sides within their root."},
 }
